@@ -139,8 +139,10 @@ def r06_1(ctx: Ctx, rep: Report) -> None:  # noqa: C901
                 rep.violation(w.qualname, f"{plat}: {kw!r}", f"the keyword the renderer emits is not accepted by {'the classifier ' + isg.qualname if not ok1 else 'the name extractor ' + lng.qualname}", where(w), inp=f'{cn if cn != "AddressBase" else "Address"}("{text}", platform="{plat}")')
     # the ACE grammar alternation knows both spellings
     pe = ctx.func("parsers.parse_ace_extended")
-    addr = folder.local_env(pe).get("addr", UNKNOWN)
-    rep.require(known(addr), "parsers.parse_ace_extended: `addr` alternation not foldable")
+    from .c01 import address_alternation
+
+    addr = address_alternation(ctx, pe)
+    rep.require(addr is not None, "parsers.parse_ace_extended: the address alternation of the ACE grammar was not found")
     lits = {x.strip() for x in rx.alternation_literals(addr)}
     w = ctx.cls("AddressBase").methods["_cmd_addrgroup"]
     for plat in NATIVE:
@@ -196,6 +198,10 @@ def r06_1(ctx: Ctx, rep: Report) -> None:  # noqa: C901
         first = pieces[0][0] if pieces else ""
         pv = folder.local_env(f).get(first)
         ok = isinstance(pv, str) and _re.fullmatch(pv, "4294967295") is not None and _re.fullmatch(pv, "") is not None
+        if not isinstance(pv, str):
+            # compiled pattern: the leading optional group of decimal digits
+            pv = rx.group_text(rxx, 1)
+            ok = rx.leading_optional_digits(rxx)
         if ok:
             rep.ok(f"{q}: leading piece {first} = {pv!r}", "matches any decimal sequence number and its absence", where=where(f))
         else:
